@@ -144,7 +144,10 @@ class World(Sim):
                         gref = ('abs', existing_groups[abs(g) % len(existing_groups)])
                     parents = set()
                     for p in j.get('parents', []):
-                        if p < 0 and k > 0:
+                        if p < 0 and k > 0 and j.get('legacy'):
+                            # the legacy `parent_ids` form: a parent in the same update named by its absolute id
+                            parents.add(('abs', sj + ((-p - 1) % k)))
+                        elif p < 0 and k > 0:
                             parents.add(('in', 1 + ((-p - 1) % k)))
                         elif existing_jobs:
                             parents.add(('abs', existing_jobs[abs(p) % len(existing_jobs)]))
